@@ -37,6 +37,63 @@ start :: fn do
 end
 '''
 CLOSURES = [
+# an assignment whose target is reached through a call that re-enters the same assignment statement: each activation stores ITS value
+("assignment_through_a_recursive_call_in_the_target", '''
+Box :: blob {
+    v: int,
+}
+a :: Box { v: 0 }
+b :: Box { v: 0 }
+c :: Box { v: 0 }
+pick :: fn n: int -> Box do
+    if n == 1 do
+        ret a
+    end
+    if n == 2 do
+        ret b
+    end
+    ret c
+end
+fill :: fn n: int -> Box do
+    if n > 1 do
+        fill(n - 1).v = n * 10 + ?m
+    end
+    ret pick(n)
+end
+start :: fn do
+    fill(3)
+    print(a.v)
+    print(b.v)
+    print(c.v)
+end
+''', {"m": (0, 3)}),
+("assignment_target_and_value_with_effects", '''
+Box :: blob {
+    v: int,
+}
+log := 0
+b0 :: Box { v: 0 }
+b1 :: Box { v: 0 }
+at :: fn i: int -> Box do
+    log = log * 10 + 1
+    if i == 0 do
+        ret b0
+    end
+    ret b1
+end
+val :: fn k: int -> int do
+    log = log * 10 + 2
+    ret k + ?m
+end
+start :: fn do
+    at(0).v = val(5)
+    print(log)
+    at(1).v += val(6)
+    print(log)
+    print(b0.v)
+    print(b1.v)
+end
+''', {"m": (0, 3)}),
 # top-level functions are closures over the module's variables: all of them share ONE variable, wherever it is declared and however they write it
 ("module_variable_shared_by_top_level_functions", '''
 set_it :: fn v: int do
